@@ -103,6 +103,10 @@ type Env struct {
 	Eff *Effects
 }
 
+// StrictKinds makes a method argument of the wrong dynamic kind an ordinary evaluation error
+// (class EKind) instead of "outside the quantifier"; C14 injects such failures on purpose.
+var StrictKinds = false
+
 // New makes an evaluator over st.
 func New(st *facts.State) *Env { return &Env{St: st, Eff: &Effects{}} }
 
@@ -728,6 +732,9 @@ func (e *Env) args(xs []gast.Expr) ([]Val, *Err) {
 
 func needInt64(v Val) (int64, *Err) {
 	if v.K != KInt || v.GK != reflect.Int64 {
+		if StrictKinds {
+			return 0, errf(EKind, "argument is not exactly int64 (%s/%s)", v.K, v.GK)
+		}
 		return 0, errf(EUndefined, "argument is not exactly int64 (%s/%s)", v.K, v.GK)
 	}
 	return v.I, nil
@@ -735,6 +742,9 @@ func needInt64(v Val) (int64, *Err) {
 
 func needFloat64(v Val) (float64, *Err) {
 	if v.K != KFloat || v.GK != reflect.Float64 {
+		if StrictKinds {
+			return 0, errf(EKind, "argument is not exactly float64 (%s/%s)", v.K, v.GK)
+		}
 		return 0, errf(EUndefined, "argument is not exactly float64 (%s/%s)", v.K, v.GK)
 	}
 	return v.F, nil
